@@ -28,11 +28,14 @@ impl Choice {
 impl From<u8> for Choice {
     // subtle: `debug_assert!((input == 0u8) | (input == 1u8)); Choice(black_box(input))`
     // (a trait method cannot carry a `requires`; callers below show `input <= 1` at the call site)
-    open spec fn obeys_from_spec() -> bool { true }
-    open spec fn from_spec(input: u8) -> Choice { Choice(input) }
     fn from(input: u8) -> (r: Choice)
         ensures r.0 == input
     { Choice(input) }
+}
+
+impl vstd::std_specs::convert::FromSpecImpl<u8> for Choice {
+    open spec fn obeys_from_spec() -> bool { true }
+    open spec fn from_spec(input: u8) -> Choice { Choice(input) }
 }
 
 pub struct CtOption<T> {
